@@ -57,8 +57,12 @@ def concretize(prop, ob):
         out.append(("metadata_exclusion", {}))
     if fn == "FileHashStore.__init__" and "frame-self" in name:
         out.append(("mp_mode", {}))
+        if "condition" in detail or "lock" in detail:
+            out.append(("mp_fork_wait", {}))
     if "W-Obj-written-under-its-cid-lock" in name or name.endswith("one-guard/Obj"):
         out.append(("race_store_delete", {}))
+    if "W-Meta" in name or name.endswith("one-guard/Meta"):
+        out.append(("race_meta_pause", {}))
     if "W-PidRef" in name or name.endswith("one-guard/PidRef"):
         out.append(("race_tag_delete", {}))
     if name.startswith("main/store_object/arg:object_size"):
@@ -81,6 +85,9 @@ def concretize(prop, ob):
     if short_name(fn) == "store_object" and ("post/locks" in name or "releases-held" in name
                                              or "release-only-own" in name):
         out.append(("race_same_pid_store", {}))
+    if name == "sync/acquired-identifier-is-free":
+        out.append(("race_wakeup", {"class": "cid" if "cid" in detail else "pid"}))
+        out.append(("race_wakeup", {"class": "cid" if "cid" in detail else "pid", "mp": True}))
     if name.startswith("sync/release-only-own") or name.startswith("sync/"):
         out.append(("race_same_pid_store", {}))
     if "C-check-then-act/entry-existence" in name:
@@ -97,8 +104,11 @@ def concretize(prop, ob):
             prim = m.group(1)
             if prim == "read":
                 prim = "open-r"      # natively a failing read is injected at the open
+            # a marked location (<name>_delete) is its own category in the native fault plan
+            mm = _re.search(r"after [a-z+\-]+@mkloc\(.*?,\s*(\d+)\)\s*$", detail, _re.S)
+            marked = "-marked" if (mm and mm.group(1) != "0") else ""
             out.append(("fault_call", {"scenario": scen, "prim": prim,
-                                       "target": kinds.get(m.group(2), "?"),
+                                       "target": kinds.get(m.group(2), "?") + marked,
                                        "persistent": mode == "persistent"}))
     if fn == "FileHashStore._clean_algorithm" and "acceptance-table" in name:
         want = None
@@ -125,6 +135,15 @@ def concretize(prop, ob):
     METALAYER = ("store_metadata", "delete_metadata", "retrieve_metadata", "_put_metadata",
                  "_mktmpmetadata")
     short = fn.split(".")[-1]
+    if short in ("_remove_pid_and_handle_cid_refs_deletion", "_untag_object",
+                 "_mark_pid_refs_file_for_deletion", "_validate_and_check_cid_lock"):
+        # the roll-back helpers only run after a failure inside the tagging step
+        for scen in ("tag_object: additional pid of the cid", "tag_object: first pid of the cid",
+                     "tag_object: pid bound to another cid"):
+            for prim, target in (("move", "pidref"), ("move", "cidref"), ("open-a", "cidref"),
+                                 ("makedirs", "pidref")):
+                out.append(("fault_call", {"scenario": scen, "prim": prim, "target": target,
+                                           "persistent": False}))
     if short == "_update_refs_file":
         out.append(("refs_helper_pool", {}))
     if short in REFLAYER or name.startswith("lemma/"):
